@@ -37,8 +37,9 @@ type Violation struct {
 }
 
 type region struct {
-	id   string
-	cond *sym.Term
+	id    string
+	cond  *sym.Term
+	label string // "" = applies to every later violation on the path; otherwise only to this assertion label
 }
 
 type Record struct {
@@ -657,10 +658,12 @@ func (p *pathCtx) assume(cond *sym.Term) {
 
 // violation bookkeeping -----------------------------------------------------
 
-func (p *pathCtx) regionsDisj() *sym.Term {
+func (p *pathCtx) regionsDisj(label string) *sym.Term {
 	var rs []*sym.Term
 	for _, r := range p.regions {
-		rs = append(rs, r.cond)
+		if r.label == "" || r.label == label {
+			rs = append(rs, r.cond)
+		}
 	}
 	return sym.Or(rs...)
 }
@@ -677,7 +680,7 @@ func (p *pathCtx) reportViolation(kind, label, msg string, bad *sym.Term) bool {
 		}
 		return false
 	}
-	outside := sym.And(bad, sym.Not(p.regionsDisj()))
+	outside := sym.And(bad, sym.Not(p.regionsDisj(label)))
 	if !outside.IsFalse() {
 		if r, m := p.checkModel(outside); r == sym.Sat {
 			p.res.Violations = append(p.res.Violations, Violation{Label: label, Kind: kind, Msg: msg, Model: m, Harness: p.harness, Trace: append([]string(nil), p.res.Events...)})
@@ -685,6 +688,9 @@ func (p *pathCtx) reportViolation(kind, label, msg string, bad *sym.Term) bool {
 		}
 	}
 	for _, rg := range p.regions {
+		if rg.label != "" && rg.label != label {
+			continue
+		}
 		in := sym.And(bad, rg.cond)
 		if in.IsFalse() {
 			continue
